@@ -5,83 +5,778 @@ open Regress.Api
 
 variable {ctx : SearchCtx}
 
-theorem forwardStepsFuel_done (fuel : Nat) (s : RegexSearcher) (hd : s.done = true) :
-    forwardStepsFuel ctx (fuel + 1) s = some [] := by
-  simp [forwardStepsFuel, RegexSearcher.next, hd]
+/-! ## Internal vocabulary -/
 
-theorem IsIter_restart (H : ForwardOK ctx) {c s e : Nat} {ms : List (Nat × Nat)} (hc : c ≤ ctx.len)
-    (h : IsIter ctx c ((s, e) :: ms)) : IsIter ctx s ((s, e) :: ms) :=
-  ⟨H.find_restart c s e hc h.1, h.2⟩
+/-- `Run ctx s steps s'`: calling `forward_step` repeatedly on `s` returns the non-`Done` steps
+`steps` and then `Done`, leaving the searcher in state `s'`. -/
+inductive Run (ctx : SearchCtx) : RegexSearcher → List SearchStep → RegexSearcher → Prop
+  | done {s s' : RegexSearcher} : s.forwardStep ctx = .ok (.done, s') → Run ctx s [] s'
+  | step {s s1 s' : RegexSearcher} {st : SearchStep} {l : List SearchStep} :
+      s.forwardStep ctx = .ok (st, s1) → st ≠ .done → Run ctx s1 l s' → Run ctx s (st :: l) s'
 
-/-- The main induction: from a live state at `c`, the remaining steps tile `[c, len)`, lie on
-boundaries, and their `Match`es are the iterator's matches from `c`. -/
-theorem forward_from (H : ForwardOK ctx) : ∀ fuel c ms rp rd,
-    ctx.len - c + 1 ≤ fuel → c ≤ ctx.len → ctx.isBoundary c = true → IsIter ctx c ms →
-    ∃ steps, forwardStepsFuel ctx fuel
-        { currentPos := c, done := false, reversePos := rp, reverseDone := rd } = some steps ∧
-      tilesFrom ctx.len c steps = true ∧ onBoundaries ctx steps = true ∧ matchesOf steps = ms := by
+/-- The invariant of a searcher that has only been driven from the front. -/
+structure FwdInv (ctx : SearchCtx) (s : RegexSearcher) : Prop where
+  rem : s.remaining = none
+  r_le : s.reportedPos ≤ ctx.len
+  r_bd : ctx.isBoundary s.reportedPos = true
+  sp : ∀ c, s.searchPos = some c → s.reportedPos ≤ c ∧ c ≤ ctx.len ∧ ctx.isBoundary c = true
+
+/-- Bound on the number of `forward_step` calls until (and including) the one returning `Done`. -/
+def fwdMeasure (ctx : SearchCtx) (s : RegexSearcher) : Nat :=
+  match s.searchPos with
+  | some c => (ctx.len - s.reportedPos) + (ctx.len - c) + 2
+  | none => (ctx.len - s.reportedPos) + 1
+
+/-! ## Lists of steps -/
+
+theorem matchesOf_append (a b : List SearchStep) : matchesOf (a ++ b) = matchesOf a ++ matchesOf b := by
+  induction a with
+  | nil => rfl
+  | cons x a ih => cases x <;> simp [matchesOf, ih]
+
+theorem matchesOf_reverse (a : List SearchStep) : matchesOf a.reverse = (matchesOf a).reverse := by
+  induction a with
+  | nil => rfl
+  | cons x a ih => cases x <;> simp [matchesOf, matchesOf_append, ih]
+
+theorem firstMatch_eq_head (a : List SearchStep) : firstMatch a = (matchesOf a).head? := by
+  induction a with
+  | nil => rfl
+  | cons x a ih => cases x <;> simp [matchesOf, firstMatch, ih]
+
+theorem tilesFrom_no_done {len c : Nat} {l : List SearchStep} (h : tilesFrom len c l = true) :
+    ∀ x ∈ l, x ≠ SearchStep.done := by
+  induction l generalizing c with
+  | nil => simp
+  | cons x l ih =>
+    cases x with
+    | «match» s e =>
+      simp only [tilesFrom, Bool.and_eq_true] at h
+      intro y hy
+      cases List.mem_cons.1 hy with
+      | inl h1 => subst h1; simp
+      | inr h1 => exact ih h.2 y h1
+    | reject s e =>
+      simp only [tilesFrom, Bool.and_eq_true] at h
+      intro y hy
+      cases List.mem_cons.1 hy with
+      | inl h1 => subst h1; simp
+      | inr h1 => exact ih h.2 y h1
+    | done => simp [tilesFrom] at h
+
+/-! ## The iterator specification is functional -/
+
+theorem IsIterO_unique : ∀ (cur : Option Nat) (a b : List (Nat × Nat)),
+    IsIterO ctx cur a → IsIterO ctx cur b → a = b := by
+  intro cur a
+  induction a generalizing cur with
+  | nil =>
+    intro b ha hb
+    cases b with
+    | nil => rfl
+    | cons m b =>
+      cases cur with
+      | none => exact hb.elim
+      | some c => simp only [IsIterO] at ha hb; rw [ha] at hb; cases hb.1
+  | cons m a ih =>
+    intro b ha hb
+    cases cur with
+    | none => exact ha.elim
+    | some c =>
+      cases b with
+      | nil => simp only [IsIterO] at ha hb; rw [hb] at ha; cases ha.1
+      | cons m' b =>
+        simp only [IsIterO] at ha hb
+        have hm : m = m' := by have := ha.1; rw [hb.1] at this; cases this; rfl
+        subst hm
+        rw [ih _ b ha.2 hb.2]
+
+/-- Restart consistency lifts to the iterator. -/
+theorem IsIterO_restart (H : CtxOK ctx) {c s e : Nat} {ms : List (Nat × Nat)}
+    (hc : c ≤ ctx.len) (hb : ctx.isBoundary c = true) (hf : ctx.findFrom c = some (s, e))
+    (h : IsIterO ctx (some s) ms) : IsIterO ctx (some c) ms := by
+  have hr := H.find_restart c s e hc hb hf
+  cases ms with
+  | nil => simp only [IsIterO] at h; rw [h] at hr; cases hr
+  | cons m ms =>
+    simp only [IsIterO] at h ⊢
+    have : m = (s, e) := by have := h.1; rw [hr] at this; cases this; rfl
+    subst this
+    exact ⟨hf, h.2⟩
+
+/-! ## `forward_step` -/
+
+theorem findFromChecked_ok {c : Nat} (hb : ctx.isBoundary c = true) :
+    ctx.findFromChecked c = .ok (ctx.findFrom c) := by
+  simp [SearchCtx.findFromChecked, hb]
+
+theorem sliceCharsNext_ok {e : Nat} (hle : e ≤ ctx.len) (hb : ctx.isBoundary e = true) :
+    ctx.sliceCharsNext e = .ok (ctx.nextBoundary e) := by
+  simp [SearchCtx.sliceCharsNext, hb, hle]
+
+/-- The possible outcomes of `forward_step`. -/
+theorem forwardStep_cases (ctx : SearchCtx) (s : RegexSearcher) :
+    (∃ err, s.forwardStep ctx = .error err) ∨
+    (s.forwardStep ctx = .ok (.done, { s with searchPos := none }) ∧ ¬ s.reportedPos < ctx.len) ∨
+    (∃ st s', s.forwardStep ctx = .ok (st, s') ∧ st ≠ .done ∧ s'.remaining = s.remaining) := by
+  have noMatch : ∀ x : SearchStep × RegexSearcher,
+      x = (if s.reportedPos < ctx.len then
+            (SearchStep.reject s.reportedPos ctx.len,
+              ({ reportedPos := ctx.len, searchPos := none, remaining := s.remaining } : RegexSearcher))
+          else (SearchStep.done, { s with searchPos := none })) →
+      (x = (SearchStep.done, { s with searchPos := none }) ∧ ¬ s.reportedPos < ctx.len) ∨
+      (∃ st s', x = (st, s') ∧ st ≠ SearchStep.done ∧ s'.remaining = s.remaining) := by
+    intro x hx
+    by_cases hlt : s.reportedPos < ctx.len
+    · rw [if_pos hlt] at hx; subst hx; exact .inr ⟨_, _, rfl, by simp, rfl⟩
+    · rw [if_neg hlt] at hx; subst hx; exact .inl ⟨rfl, hlt⟩
+  have hdef : s.forwardStep ctx =
+      match (match s.searchPos with
+             | none => Except.ok none
+             | some pos => ctx.findFromChecked pos) with
+      | .error err => .error err
+      | .ok none =>
+        (if s.reportedPos < ctx.len then
+          .ok (SearchStep.reject s.reportedPos ctx.len,
+              ({ reportedPos := ctx.len, searchPos := none, remaining := s.remaining } : RegexSearcher))
+        else .ok (SearchStep.done, { s with searchPos := none }))
+      | .ok (some (mStart, mEnd)) =>
+        if s.reportedPos < mStart then
+          .ok (.reject s.reportedPos mStart, { s with reportedPos := mStart, searchPos := some mStart })
+        else if mStart != mEnd then
+          .ok (.match mStart mEnd, { s with reportedPos := mEnd, searchPos := some mEnd })
+        else
+          match ctx.sliceCharsNext mEnd with
+          | .error err => .error err
+          | .ok sp => .ok (.match mStart mEnd, { s with reportedPos := mEnd, searchPos := sp }) := rfl
+  have noMatch : (if s.reportedPos < ctx.len then
+          (Except.ok (SearchStep.reject s.reportedPos ctx.len,
+              ({ reportedPos := ctx.len, searchPos := none, remaining := s.remaining } : RegexSearcher)) :
+            Except SearchError (SearchStep × RegexSearcher))
+        else .ok (SearchStep.done, { s with searchPos := none })) = s.forwardStep ctx →
+      (s.forwardStep ctx = .ok (.done, { s with searchPos := none }) ∧ ¬ s.reportedPos < ctx.len) ∨
+      (∃ st s', s.forwardStep ctx = .ok (st, s') ∧ st ≠ .done ∧ s'.remaining = s.remaining) := by
+    intro hx
+    by_cases hlt : s.reportedPos < ctx.len
+    · rw [if_pos hlt] at hx; exact .inr ⟨_, _, hx.symm, by simp, rfl⟩
+    · rw [if_neg hlt] at hx; exact .inl ⟨hx.symm, hlt⟩
+  cases hsp : s.searchPos with
+  | none => right; apply noMatch; rw [hdef, hsp]
+  | some c =>
+    cases hf : ctx.findFromChecked c with
+    | error e => exact .inl ⟨e, by rw [hdef, hsp]; simp only [hf]⟩
+    | ok o =>
+      cases o with
+      | none => right; apply noMatch; rw [hdef, hsp]; simp only [hf]
+      | some m =>
+        obtain ⟨a, b⟩ := m
+        rw [hdef, hsp]; simp only [hf]
+        by_cases h1 : s.reportedPos < a
+        · rw [if_pos h1]; exact .inr (.inr ⟨_, _, rfl, by simp, rfl⟩)
+        · rw [if_neg h1]
+          by_cases h2 : (a != b) = true
+          · rw [if_pos h2]; exact .inr (.inr ⟨_, _, rfl, by simp, rfl⟩)
+          · rw [if_neg h2]
+            cases ctx.sliceCharsNext b with
+            | error e => exact .inl ⟨e, rfl⟩
+            | ok sp => exact .inr (.inr ⟨_, _, rfl, by simp, rfl⟩)
+
+/-- Once `forward_step` has returned `Done` it keeps returning `Done` without changing the state. -/
+theorem forwardStep_done_again {s s' : RegexSearcher} (h : s.forwardStep ctx = .ok (.done, s')) :
+    s'.forwardStep ctx = .ok (.done, s') ∧ s'.remaining = s.remaining := by
+  rcases forwardStep_cases ctx s with ⟨e, he⟩ | ⟨hd, hlt⟩ | ⟨st, s1, hs, hne, _⟩
+  · rw [he] at h; cases h
+  · rw [hd] at h; cases h
+    simp [RegexSearcher.forwardStep, hlt]
+  · rw [hs] at h; cases h; exact (hne rfl).elim
+
+theorem forwardStep_remaining {s s' : RegexSearcher} {st : SearchStep}
+    (h : s.forwardStep ctx = .ok (st, s')) : s'.remaining = s.remaining := by
+  rcases forwardStep_cases ctx s with ⟨e, he⟩ | ⟨hd, hlt⟩ | ⟨st, s1, hs, hne, hr⟩
+  · rw [he] at h; cases h
+  · rw [hd] at h; cases h; rfl
+  · rw [hs] at h; cases h; exact hr
+
+theorem Run.deterministic {s s1 s2 : RegexSearcher} {l1 l2 : List SearchStep}
+    (h1 : Run ctx s l1 s1) (h2 : Run ctx s l2 s2) : l1 = l2 ∧ s1 = s2 := by
+  induction h1 generalizing l2 s2 with
+  | done hd =>
+    cases h2 with
+    | done hd' => rw [hd] at hd'; cases hd'; exact ⟨rfl, rfl⟩
+    | step hs hne _ => rw [hd] at hs; cases hs; exact (hne rfl).elim
+  | step hs hne _ ih =>
+    cases h2 with
+    | done hd' => rw [hs] at hd'; cases hd'; exact (hne rfl).elim
+    | step hs' _ hr' =>
+      rw [hs] at hs'; cases hs'
+      obtain ⟨h3, h4⟩ := ih hr'
+      exact ⟨by rw [h3], h4⟩
+
+theorem Run.remaining {s s' : RegexSearcher} {l : List SearchStep} (h : Run ctx s l s') :
+    s'.remaining = s.remaining := by
+  induction h with
+  | done hd => exact forwardStep_remaining hd
+  | step hs _ _ ih => rw [ih, forwardStep_remaining hs]
+
+theorem Run.no_done {s s' : RegexSearcher} {l : List SearchStep} (h : Run ctx s l s') :
+    ∀ x ∈ l, x ≠ SearchStep.done := by
+  induction h with
+  | done _ => simp
+  | step _ hne _ ih =>
+    intro x hx
+    cases List.mem_cons.1 hx with
+    | inl h1 => subst h1; exact hne
+    | inr h1 => exact ih x h1
+
+/-- After the final `Done` the searcher stays put. -/
+theorem Run.final {s s' : RegexSearcher} {l : List SearchStep} (h : Run ctx s l s') :
+    Run ctx s' [] s' := by
+  induction h with
+  | done hd => exact Run.done (forwardStep_done_again hd).1
+  | step _ _ _ ih => exact ih
+
+/-- The main induction: from a state satisfying `FwdInv`, the remaining forward steps exist (no panic,
+at most `fwdMeasure - 1` of them), tile `[reported_pos, len)`, lie on boundaries, and their `Match`es
+are the iterator's matches from the cursor `search_pos`. -/
+theorem run_exists (H : CtxOK ctx) : ∀ n r sp, fwdMeasure ctx ⟨r, sp, none⟩ ≤ n →
+    FwdInv ctx ⟨r, sp, none⟩ →
+    ∃ steps s', Run ctx ⟨r, sp, none⟩ steps s' ∧ steps.length + 1 ≤ fwdMeasure ctx ⟨r, sp, none⟩ ∧
+      tilesFrom ctx.len r steps = true ∧ onBoundaries ctx steps = true ∧
+      IsIterO ctx sp (matchesOf steps) := by
+  intro n
+  induction n with
+  | zero => intro r sp hn; cases sp <;> simp [fwdMeasure] at hn
+  | succ n ih =>
+    intro r sp hn inv
+    have hrle : r ≤ ctx.len := inv.r_le
+    have hrbd : ctx.isBoundary r = true := inv.r_bd
+    -- the "no more matches" branch, shared by `search_pos = None` and `find_from = None`
+    have noMatch : ∀ sp', (RegexSearcher.forwardStep ctx ⟨r, sp', none⟩ =
+          if r < ctx.len then .ok (.reject r ctx.len, ⟨ctx.len, none, none⟩)
+          else .ok (.done, ⟨r, none, none⟩)) →
+        ∃ steps s', Run ctx ⟨r, sp', none⟩ steps s' ∧ steps.length + 1 ≤ (ctx.len - r) + 1 ∧
+          tilesFrom ctx.len r steps = true ∧ onBoundaries ctx steps = true ∧ matchesOf steps = [] := by
+      intro sp' hstep
+      by_cases hlt : r < ctx.len
+      · rw [if_pos hlt] at hstep
+        refine ⟨[.reject r ctx.len], ⟨ctx.len, none, none⟩, ?_, ?_, ?_, ?_, rfl⟩
+        · refine Run.step hstep (by simp) (Run.done ?_)
+          simp [RegexSearcher.forwardStep]
+        · simp; omega
+        · simp [tilesFrom, hlt]
+        · simp [onBoundaries, hrbd, H.boundary_len]
+      · rw [if_neg hlt] at hstep
+        refine ⟨[], ⟨r, none, none⟩, Run.done hstep, by simp, ?_, rfl, rfl⟩
+        simp [tilesFrom]; omega
+    cases sp with
+    | none =>
+      obtain ⟨steps, s', h1, h2, h3, h4, h5⟩ := noMatch none (by simp [RegexSearcher.forwardStep])
+      refine ⟨steps, s', h1, ?_, h3, h4, ?_⟩
+      · simpa [fwdMeasure] using h2
+      · rw [h5]; trivial
+    | some c =>
+      have hsp3 : r ≤ c ∧ c ≤ ctx.len ∧ ctx.isBoundary c = true := inv.sp c rfl
+      obtain ⟨hrc, hcle, hcbd⟩ := hsp3
+      have hchk := findFromChecked_ok (ctx := ctx) hcbd
+      cases hfind : ctx.findFrom c with
+      | none =>
+        obtain ⟨steps, s', h1, h2, h3, h4, h5⟩ := noMatch (some c)
+          (by simp [RegexSearcher.forwardStep, hchk, hfind])
+        refine ⟨steps, s', h1, ?_, h3, h4, ?_⟩
+        · simp only [fwdMeasure]; omega
+        · rw [h5]; exact hfind
+      | some m =>
+        obtain ⟨ms, me⟩ := m
+        obtain ⟨h_cs, h_se, h_el⟩ := H.find_range c ms me hcle hcbd hfind
+        obtain ⟨hsbd, hebd⟩ := H.find_boundary c ms me hcle hcbd hfind
+        simp only [fwdMeasure] at hn
+        by_cases hlt : r < ms
+        · -- Reject(r, ms); the match is found again from `ms`
+          have hstep : RegexSearcher.forwardStep ctx ⟨r, some c, none⟩ =
+              .ok (.reject r ms, ⟨ms, some ms, none⟩) := by
+            simp [RegexSearcher.forwardStep, hchk, hfind, hlt]
+          have inv' : FwdInv ctx ⟨ms, some ms, none⟩ :=
+            ⟨rfl, by simp; omega, hsbd, by intro c' hc'; cases hc'; exact ⟨Nat.le_refl _, by omega, hsbd⟩⟩
+          obtain ⟨steps, s', h1, h2, h3, h4, h5⟩ := ih ms (some ms) (by simp only [fwdMeasure]; omega) inv'
+          refine ⟨.reject r ms :: steps, s', Run.step hstep (by simp) h1, ?_, ?_, ?_, ?_⟩
+          · simp only [fwdMeasure] at h2 ⊢; simp only [List.length_cons]; omega
+          · simp [tilesFrom, hlt, h3]
+          · simp [onBoundaries, hrbd, hsbd, h4]
+          · simp only [matchesOf]
+            exact IsIterO_restart H hcle hcbd hfind h5
+        · -- Match(ms, me) with ms = c = r
+          have hms : ms = r := by omega
+          have hcr : ms = c := by omega
+          subst hms; subst hcr
+          by_cases hne : ms = me
+          · -- empty match: resume one char further on
+            subst hne
+            have hstep : RegexSearcher.forwardStep ctx ⟨ms, some ms, none⟩ =
+                .ok (.match ms ms, ⟨ms, ctx.nextBoundary ms, none⟩) := by
+              simp [RegexSearcher.forwardStep, hchk, hfind, sliceCharsNext_ok hrle hrbd]
+            have inv' : FwdInv ctx ⟨ms, ctx.nextBoundary ms, none⟩ :=
+              ⟨rfl, hrle, hrbd, by
+                intro q hq
+                obtain ⟨h1, h2, h3⟩ := H.next_boundary ms q hrle hrbd hq
+                exact ⟨Nat.le_of_lt h1, h2, h3⟩⟩
+            have hmeas : fwdMeasure ctx ⟨ms, ctx.nextBoundary ms, none⟩ + 1 ≤
+                fwdMeasure ctx ⟨ms, some ms, none⟩ := by
+              cases hq : ctx.nextBoundary ms with
+              | none => simp only [fwdMeasure]; omega
+              | some q =>
+                obtain ⟨h1, h2, _⟩ := H.next_boundary ms q hrle hrbd hq
+                simp only [fwdMeasure]; omega
+            have hmeas0 : fwdMeasure ctx ⟨ms, some ms, none⟩ ≤ n + 1 := by
+              simp only [fwdMeasure]; omega
+            obtain ⟨steps, s', h1, h2, h3, h4, h5⟩ := ih ms (ctx.nextBoundary ms) (by omega) inv'
+            refine ⟨.match ms ms :: steps, s', Run.step hstep (by simp) h1, ?_, ?_, ?_, ?_⟩
+            · simp only [List.length_cons]; omega
+            · simp [tilesFrom, h3]
+            · simp [onBoundaries, hrbd, h4]
+            · simp only [matchesOf, IsIterO]
+              exact ⟨hfind, by simpa [advance] using h5⟩
+          · -- non-empty match: resume at its end
+            have hstep : RegexSearcher.forwardStep ctx ⟨ms, some ms, none⟩ =
+                .ok (.match ms me, ⟨me, some me, none⟩) := by
+              simp [RegexSearcher.forwardStep, hchk, hfind, hne]
+            have inv' : FwdInv ctx ⟨me, some me, none⟩ :=
+              ⟨rfl, h_el, hebd, by intro c' hc'; cases hc'; exact ⟨Nat.le_refl _, h_el, hebd⟩⟩
+            obtain ⟨steps, s', h1, h2, h3, h4, h5⟩ := ih me (some me) (by simp only [fwdMeasure]; omega) inv'
+            refine ⟨.match ms me :: steps, s', Run.step hstep (by simp) h1, ?_, ?_, ?_, ?_⟩
+            · simp only [fwdMeasure] at h2 ⊢; simp only [List.length_cons]; omega
+            · simp [tilesFrom, h_se, h3]
+            · simp [onBoundaries, hrbd, hebd, h4]
+            · simp only [matchesOf, IsIterO]
+              refine ⟨hfind, ?_⟩
+              have : advance ctx (ms, me) = some me := by simp [advance, hne]
+              rw [this]; exact h5
+
+/-! ## The drivers in terms of `Run` -/
+
+theorem FwdInv_new (H : CtxOK ctx) : FwdInv ctx RegexSearcher.new :=
+  ⟨rfl, Nat.zero_le _, H.boundary_zero, by
+    intro c hc; cases hc; exact ⟨Nat.le_refl _, Nat.zero_le _, H.boundary_zero⟩⟩
+
+theorem fwdMeasure_new : fwdMeasure ctx RegexSearcher.new = 2 * ctx.len + 2 := by
+  simp only [fwdMeasure, RegexSearcher.new]; omega
+
+theorem next_of_remaining_none {s : RegexSearcher} (h : s.remaining = none) :
+    s.next ctx = s.forwardStep ctx := by
+  simp [RegexSearcher.next, h]
+
+theorem forwardStepsFuel_of_run {s s' : RegexSearcher} {l : List SearchStep} (h : Run ctx s l s')
+    (hrem : s.remaining = none) : ∀ fuel, l.length + 1 ≤ fuel → forwardStepsFuel ctx fuel s = some l := by
+  induction h with
+  | done hd =>
+    intro fuel hf
+    obtain ⟨f, rfl⟩ : ∃ f, fuel = f + 1 := ⟨fuel - 1, by omega⟩
+    simp [forwardStepsFuel, next_of_remaining_none hrem, hd]
+  | step hs hne _ ih =>
+    intro fuel hf
+    obtain ⟨f, rfl⟩ : ∃ f, fuel = f + 1 := ⟨fuel - 1, by omega⟩
+    have := ih (by rw [forwardStep_remaining hs]; exact hrem) f (by simp at hf; omega)
+    simp [forwardStepsFuel, next_of_remaining_none hrem, hs, hne, this]
+
+theorem collectLoop_of_run {s s' : RegexSearcher} {l : List SearchStep} (h : Run ctx s l s') :
+    ∀ fuel acc, l.length + 1 ≤ fuel → collectLoop ctx fuel s acc = .ok (acc ++ l, s') := by
+  induction h with
+  | done hd =>
+    intro fuel acc hf
+    obtain ⟨f, rfl⟩ : ∃ f, fuel = f + 1 := ⟨fuel - 1, by omega⟩
+    simp [collectLoop, hd]
+  | @step _ _ _ st _ hs hne _ ih =>
+    intro fuel acc hf
+    obtain ⟨f, rfl⟩ : ∃ f, fuel = f + 1 := ⟨fuel - 1, by omega⟩
+    have := ih f (acc ++ [st]) (by simp at hf; omega)
+    simp [collectLoop, hs, hne, this]
+
+/-- More fuel does not change the result of the loop of `next_back`. -/
+theorem collectLoop_fuel_mono : ∀ (fuel fuel' : Nat) (s : RegexSearcher) (acc : List SearchStep)
+    (x : List SearchStep × RegexSearcher), fuel ≤ fuel' → collectLoop ctx fuel s acc = .ok x →
+    collectLoop ctx fuel' s acc = .ok x := by
   intro fuel
   induction fuel with
-  | zero => intro c ms rp rd hf; omega
+  | zero => intro fuel' s acc x _ h; simp [collectLoop] at h
   | succ f ih =>
-    intro c ms rp rd hf hc hb hit
-    have hchk : ctx.findFromChecked c = .ok (ctx.findFrom c) := by
-      simp [SearchCtx.findFromChecked, hb]
-    cases hfind : ctx.findFrom c with
-    | none =>
-      have hms : ms = [] := by
-        cases ms with
-        | nil => rfl
-        | cons m ms => have := hit.1; rw [hfind] at this; cases this
-      subst hms
-      by_cases hlt : c < ctx.len
-      · have hf1 : f = (f - 1) + 1 := by omega
-        refine ⟨[.reject c ctx.len], ?_, ?_, ?_, rfl⟩
-        · rw [forwardStepsFuel]
-          simp only [RegexSearcher.next, hchk, hfind, hlt, if_true, Bool.false_eq_true, if_false]
-          rw [hf1, forwardStepsFuel_done _ _ rfl]
-        · simp [tilesFrom]; omega
-        · simp [onBoundaries, hb, H.boundary_len]
-      · refine ⟨[], ?_, ?_, rfl, rfl⟩
-        · rw [forwardStepsFuel]
-          simp [RegexSearcher.next, hchk, hfind, hlt]
-        · simp [tilesFrom]; omega
-    | some m =>
-      obtain ⟨s, e⟩ := m
-      have hr := H.find_range c s e hc hfind
-      have hbd := H.find_boundary c s e hc hfind
-      by_cases hlt : c < s
-      · -- Reject(c, s), then continue at s
-        have hit' : IsIter ctx s ms := by
-          cases ms with
-          | nil => have := hit; unfold IsIter at this; rw [hfind] at this; cases this
-          | cons m ms =>
-            have h1 := hit.1; rw [hfind] at h1; cases h1
-            exact IsIter_restart H hc hit
-        obtain ⟨steps, h1, h2, h3, h4⟩ := ih s ms rp rd (by omega) (by omega) hbd.1 hit'
-        refine ⟨.reject c s :: steps, ?_, ?_, ?_, ?_⟩
-        · rw [forwardStepsFuel]
-          simp only [RegexSearcher.next, hchk, hfind, hlt, if_true, Bool.false_eq_true, if_false]
-          rw [h1]
-        · simp [tilesFrom, h2]; omega
-        · simp [onBoundaries, hb, hbd.1, h3]
-        · simpa [matchesOf] using h4
-      · -- Match(s, e) with s = c, then continue at e
-        have hcs : s = c := by omega
-        subst hcs
-        have hne : (s == e) = false := by simp; omega
-        cases ms with
-        | nil => have := hit; unfold IsIter at this; rw [hfind] at this; cases this
-        | cons m ms =>
-          have h1 := hit.1; rw [hfind] at h1; cases h1
-          have hit' : IsIter ctx e ms := hit.2
-          obtain ⟨steps, h1, h2, h3, h4⟩ := ih e ms rp rd (by omega) (by omega) hbd.2 hit'
-          refine ⟨.match s e :: steps, ?_, ?_, ?_, ?_⟩
-          · rw [forwardStepsFuel]
-            simp only [RegexSearcher.next, hchk, hfind, hlt, if_false, Bool.false_eq_true, hne]
-            rw [h1]
-          · simp [tilesFrom, h2]; omega
-          · simp [onBoundaries, hbd.1, hbd.2, h3]
-          · simp [matchesOf, h4]
+    intro fuel' s acc x hle h
+    obtain ⟨f', rfl⟩ : ∃ f', fuel' = f' + 1 := ⟨fuel' - 1, by omega⟩
+    simp only [collectLoop] at h ⊢
+    cases hs : s.forwardStep ctx with
+    | error e => rw [hs] at h; cases h
+    | ok p =>
+      obtain ⟨st, s1⟩ := p
+      rw [hs] at h
+      simp only at h ⊢
+      by_cases hd : st = .done
+      · simpa [hd] using h
+      · simp only [hd, if_false] at h ⊢
+        exact ih f' s1 _ x (by omega) h
+
+/-! ## `next_back` -/
+
+theorem nextBackFuel_some {s : RegexSearcher} {v : List SearchStep} {f fuel : Nat}
+    (h : s.remaining = some (v, f)) :
+    s.nextBackFuel ctx fuel =
+      if f < v.length then
+        .ok (v.getLast?.getD .done, { s with remaining := some (v.dropLast, f) })
+      else .ok (.done, s) := by
+  simp [RegexSearcher.nextBackFuel, RegexSearcher.fillRemaining, h]
+
+/-- The first `next_back` runs the forward search to its end and stores the steps. -/
+theorem nextBack_of_run {s s' : RegexSearcher} {l : List SearchStep} (hrem : s.remaining = none)
+    (h : Run ctx s l s') (hlen : l.length + 1 ≤ 2 * ctx.len + 2) :
+    s.nextBack ctx = RegexSearcher.nextBack ctx { s' with remaining := some (l, 0) } := by
+  have hc := collectLoop_of_run h (2 * ctx.len + 2) [] hlen
+  simp only [List.nil_append] at hc
+  simp [RegexSearcher.nextBack, RegexSearcher.nextBackFuel, RegexSearcher.fillRemaining, hrem, hc]
+
+theorem nextBack_some {s : RegexSearcher} {v : List SearchStep} {f : Nat}
+    (h : s.remaining = some (v, f)) :
+    s.nextBack ctx =
+      if f < v.length then
+        .ok (v.getLast?.getD .done, { s with remaining := some (v.dropLast, f) })
+      else .ok (.done, s) :=
+  nextBackFuel_some h
+
+theorem next_some {s : RegexSearcher} {v : List SearchStep} {f : Nat}
+    (h : s.remaining = some (v, f)) :
+    s.next ctx =
+      if hf : f < v.length then .ok (v[f], { s with remaining := some (v, f + 1) })
+      else .ok (.done, s) := by
+  by_cases hf : f < v.length <;> simp [RegexSearcher.next, h, hf]
+
+/-- Driving a searcher whose `remaining` is `(v, 0)` backwards yields `v` reversed. -/
+theorem backwardStepsFuel_some : ∀ (n : Nat) (v : List SearchStep) (s : RegexSearcher) (fuel : Nat),
+    v.length = n → s.remaining = some (v, 0) → (∀ x ∈ v, x ≠ SearchStep.done) → n + 1 ≤ fuel →
+    backwardStepsFuel ctx fuel s = some v.reverse := by
+  intro n
+  induction n with
+  | zero =>
+    intro v s fuel hv hs _ hf
+    obtain ⟨f, rfl⟩ : ∃ f, fuel = f + 1 := ⟨fuel - 1, by omega⟩
+    have : v = [] := List.length_eq_zero_iff.1 hv
+    subst this
+    simp [backwardStepsFuel, nextBack_some hs]
+  | succ n ih =>
+    intro v s fuel hv hs hnd hf
+    obtain ⟨f, rfl⟩ : ∃ f, fuel = f + 1 := ⟨fuel - 1, by omega⟩
+    rcases List.eq_nil_or_concat v with hnil | ⟨v', b, hvb⟩
+    · subst hnil; simp at hv
+    · rw [List.concat_eq_append] at hvb
+      subst hvb
+      have hb : b ≠ SearchStep.done := hnd b (by simp)
+      have hlen : v'.length = n := by simp at hv; exact hv
+      have := ih v' { s with remaining := some (v', 0) } f hlen rfl
+        (fun x hx => hnd x (by simp [hx])) (by omega)
+      simp [backwardStepsFuel, nextBack_some hs, hb, this]
+
+/-! ## Interleaved calls -/
+
+/-- The invariant of an interleaved run against the full forward step list `all`: what has been
+handed out from the front, then what is still to be handed out (`mid`), then what has been handed out
+from the back (reversed), make up `all`; and once a direction has returned `Done`, `mid` is empty.
+* First alternative: `remaining` is `None`, nothing has been asked from the back; `mid` is what
+  `forward_step` is still going to produce.
+* Second alternative: `remaining` is `Some((v, f))`; `mid` is `v[f..]`. -/
+def Inter (ctx : SearchCtx) (all : List SearchStep) (r : RunResult) (mid : List SearchStep) : Prop :=
+  (∃ s', r.state.remaining = none ∧ Run ctx r.state mid s' ∧ r.backs = [] ∧ r.fronts ++ mid = all ∧
+      r.backDone = false ∧ (r.frontDone = true → mid = [])) ∨
+  (∃ v pre f, mid = v.drop f ∧ r.state.remaining = some (v, f) ∧ f ≤ v.length ∧
+      (∀ x ∈ v, x ≠ SearchStep.done) ∧ pre ++ v ++ r.backs.reverse = all ∧ r.fronts = pre ++ v.take f ∧
+      (r.frontDone = true ∨ r.backDone = true → f = v.length))
+
+theorem Inter.fwd {all : List SearchStep} {r : RunResult} {mid : List SearchStep} {s' : RegexSearcher}
+    (h1 : r.state.remaining = none) (h2 : Run ctx r.state mid s') (h3 : r.backs = [])
+    (h4 : r.fronts ++ mid = all) (h5 : r.backDone = false) (h6 : r.frontDone = true → mid = []) :
+    Inter ctx all r mid := .inl ⟨s', h1, h2, h3, h4, h5, h6⟩
+
+theorem Inter.both {all : List SearchStep} {r : RunResult} {v pre : List SearchStep} {f : Nat}
+    (h1 : r.state.remaining = some (v, f)) (h2 : f ≤ v.length) (h3 : ∀ x ∈ v, x ≠ SearchStep.done)
+    (h4 : pre ++ v ++ r.backs.reverse = all) (h5 : r.fronts = pre ++ v.take f)
+    (h6 : r.frontDone = true ∨ r.backDone = true → f = v.length) :
+    Inter ctx all r (v.drop f) := .inr ⟨v, pre, f, rfl, h1, h2, h3, h4, h5, h6⟩
+
+theorem Inter.sound {all mid : List SearchStep} {r : RunResult} (h : Inter ctx all r mid) :
+    r.fronts ++ mid ++ r.backs.reverse = all ∧
+      (r.frontDone = true ∨ r.backDone = true → mid = []) := by
+  rcases h with ⟨s', _, _, hb, hall, hbd, hfd⟩ | ⟨v, pre, f, rfl, _, hf, _, hall, hfr, hfl⟩
+  · refine ⟨by simp [hb, hall], ?_⟩
+    intro h; cases h with
+    | inl h => exact hfd h
+    | inr h => rw [hbd] at h; cases h
+  · refine ⟨?_, ?_⟩
+    · rw [hfr, ← hall]; simp only [List.append_assoc]
+      rw [← List.append_assoc (List.take f v), List.take_append_drop]
+    · intro h; have := hfl h; simp [this]
+
+/-- What one call does to the bookkeeping. -/
+structure CallOK (r r' : RunResult) (mid mid' : List SearchStep) (op : Bool) : Prop where
+  fd_mono : r.frontDone = true → r'.frontDone = true
+  bd_mono : r.backDone = true → r'.backDone = true
+  /-- either the call returned `Done`, or it handed out one more step -/
+  progress : (if op then r'.frontDone = true else r'.backDone = true) ∨
+    r'.fronts.length + r'.backs.length = r.fronts.length + r.backs.length + 1
+  /-- with nothing left, the call returns `Done` -/
+  nil : mid = [] → mid' = [] ∧ (if op then r'.frontDone = true else r'.backDone = true)
+
+theorem call_both {all : List SearchStep} {r : RunResult} {v pre : List SearchStep} {f : Nat}
+    (hrem : r.state.remaining = some (v, f)) (hf : f ≤ v.length)
+    (hnd : ∀ x ∈ v, x ≠ SearchStep.done) (hall : pre ++ v ++ r.backs.reverse = all)
+    (hfr : r.fronts = pre ++ v.take f)
+    (hfl : r.frontDone = true ∨ r.backDone = true → f = v.length) (op : Bool) :
+    ∃ r' mid', r.call ctx op = .ok r' ∧ Inter ctx all r' mid' ∧ CallOK r r' (v.drop f) mid' op := by
+  by_cases hlt : f < v.length
+  · -- there is a step left
+    have hflags : r.frontDone = false ∧ r.backDone = false := by
+      constructor
+      · cases h : r.frontDone with
+        | false => rfl
+        | true => have := hfl (.inl h); omega
+      · cases h : r.backDone with
+        | false => rfl
+        | true => have := hfl (.inr h); omega
+    have hmid : v.drop f ≠ [] := by
+      intro h; have := List.drop_eq_nil_iff.1 h; omega
+    cases op with
+    | true =>
+      have hst : v[f] ≠ SearchStep.done := hnd _ (List.getElem_mem hlt)
+      refine ⟨{ r with fronts := r.fronts ++ [v[f]], state := { r.state with remaining := some (v, f + 1) } },
+        v.drop (f + 1), ?_, ?_, ?_⟩
+      · simp [RunResult.call, next_some hrem, hlt, hst]
+      · refine Inter.both (pre := pre) rfl (by omega) hnd hall ?_ ?_
+        · simp only [hfr, List.append_assoc]
+          rw [← List.take_concat_get hlt, List.concat_eq_append]
+        · intro h; simp only [hflags.1, hflags.2] at h; simp at h
+      · refine ⟨fun h => h, fun h => h, .inr (by simp; omega), fun h => (hmid h).elim⟩
+    | false =>
+      rcases List.eq_nil_or_concat v with hnil | ⟨v', b, hvb⟩
+      · subst hnil; simp at hlt
+      · rw [List.concat_eq_append] at hvb
+        subst hvb
+        have hb : b ≠ SearchStep.done := hnd b (by simp)
+        have hf' : f ≤ v'.length := by simp at hlt; omega
+        have hlt' : f < v'.length + 1 := by omega
+        refine ⟨{ r with backs := r.backs ++ [b], state := { r.state with remaining := some (v', f) } },
+          v'.drop f, ?_, ?_, ?_⟩
+        · simp [RunResult.call, nextBack_some hrem, hlt', hb]
+        · refine Inter.both (pre := pre) rfl hf' (fun x hx => hnd x (by simp [hx])) ?_ ?_ ?_
+          · rw [← hall]; simp [List.append_assoc]
+          · rw [hfr, List.take_append_of_le_length hf']
+          · intro h; simp only [hflags.1, hflags.2] at h; simp at h
+        · refine ⟨fun h => h, fun h => h, .inr (by simp; omega), fun h => (hmid h).elim⟩
+  · -- exhausted: both directions return `Done`
+    have hfe : f = v.length := by omega
+    have hmid : v.drop f = [] := List.drop_eq_nil_iff.2 (by omega)
+    cases op with
+    | true =>
+      refine ⟨{ r with frontDone := true }, v.drop f, ?_, ?_, ?_⟩
+      · simp [RunResult.call, next_some hrem, hlt]
+      · exact Inter.both (pre := pre) hrem hf hnd hall hfr (fun _ => hfe)
+      · exact ⟨fun _ => rfl, fun h => h, .inl rfl, fun _ => ⟨hmid, rfl⟩⟩
+    | false =>
+      refine ⟨{ r with backDone := true }, v.drop f, ?_, ?_, ?_⟩
+      · simp [RunResult.call, nextBack_some hrem, hlt]
+      · exact Inter.both (pre := pre) hrem hf hnd hall hfr (fun _ => hfe)
+      · exact ⟨fun h => h, fun _ => rfl, .inl rfl, fun _ => ⟨hmid, rfl⟩⟩
+
+/-- One call preserves the invariant. -/
+theorem call_inter {all mid : List SearchStep} {r : RunResult} (hall : all.length + 1 ≤ 2 * ctx.len + 2)
+    (h : Inter ctx all r mid) (op : Bool) :
+    ∃ r' mid', r.call ctx op = .ok r' ∧ Inter ctx all r' mid' ∧ CallOK r r' mid mid' op := by
+  rcases h with ⟨s', hrem, hrun, hb, hfm, hbd, hfd⟩ | ⟨v, pre, f, rfl, hrem, hf, hnd, hall', hfr, hfl⟩
+  · cases op with
+    | false =>
+      -- the first `next_back`: run the forward search to its end, then pop
+      have hlen : mid.length + 1 ≤ 2 * ctx.len + 2 := by
+        rw [← hfm] at hall; simp at hall; omega
+      let r0 : RunResult := { r with state := { s' with remaining := some (mid, 0) } }
+      have hcall : r.call ctx false = r0.call ctx false := by
+        simp only [RunResult.call, r0, nextBack_of_run hrem hrun hlen]
+        rfl
+      have := call_both (ctx := ctx) (all := all) (r := r0) (v := mid) (pre := r.fronts) (f := 0) rfl
+        (Nat.zero_le _) hrun.no_done (by simp [r0, hb, hfm]) (by simp [r0])
+        (by
+          intro h
+          cases h with
+          | inl h => simp [hfd h]
+          | inr h => simp only [r0, hbd] at h; cases h) false
+      obtain ⟨r', mid', h1, h2, h3⟩ := this
+      exact ⟨r', mid', by rw [hcall]; exact h1, h2, ⟨h3.fd_mono, h3.bd_mono, h3.progress, h3.nil⟩⟩
+    | true =>
+      cases hrun with
+      | done hd =>
+        refine ⟨{ r with frontDone := true, state := s' }, [], ?_, ?_, ?_⟩
+        · simp [RunResult.call, next_of_remaining_none hrem, hd]
+        · exact Inter.fwd (s' := s') (by simp [forwardStep_remaining hd, hrem])
+            (Run.done (forwardStep_done_again hd).1) hb hfm hbd (fun _ => rfl)
+        · exact ⟨fun _ => rfl, fun h => h, .inl rfl, fun _ => ⟨rfl, rfl⟩⟩
+      | @step _ s1 _ st l hs hne hrun' =>
+        refine ⟨{ r with fronts := r.fronts ++ [st], state := s1 }, l, ?_, ?_, ?_⟩
+        · simp [RunResult.call, next_of_remaining_none hrem, hs, hne]
+        · refine Inter.fwd (s' := s') (by simp [forwardStep_remaining hs, hrem]) hrun' hb
+            (by simp [← hfm]) hbd ?_
+          intro h; have := hfd h; cases this
+        · exact ⟨fun h => h, fun h => h, .inr (by simp; omega), fun h => by cases h⟩
+  · exact call_both hrem hf hnd hall' hfr hfl op
+
+theorem runOpsFrom_finished {r : RunResult} (h : r.finished = true) (ops : List Bool) :
+    runOpsFrom ctx ops r = .ok r := by
+  cases ops <;> simp [runOpsFrom, h]
+
+/-- Running a schedule in two parts. -/
+theorem runOpsFrom_append (a b : List Bool) (r : RunResult) :
+    runOpsFrom ctx (a ++ b) r =
+      match runOpsFrom ctx a r with
+      | .error err => .error err
+      | .ok r' => runOpsFrom ctx b r' := by
+  induction a generalizing r with
+  | nil => simp [runOpsFrom]
+  | cons op a ih =>
+    by_cases hfin : r.finished = true
+    · simp [runOpsFrom, hfin, runOpsFrom_finished hfin b]
+    · cases hc : r.call ctx op with
+      | error e => simp [runOpsFrom, hfin, hc]
+      | ok r1 => simp [runOpsFrom, hfin, hc, ih r1]
+
+/-- `k` calls have been made and none returned `Done` only if `k` steps have been handed out. -/
+def Progress (r : RunResult) (k : Nat) : Prop :=
+  r.frontDone = true ∨ r.backDone = true ∨ k ≤ r.fronts.length + r.backs.length
+
+/-- A whole schedule preserves the invariant. -/
+theorem run_inter {all : List SearchStep} (hall : all.length + 1 ≤ 2 * ctx.len + 2) :
+    ∀ (ops : List Bool) (r : RunResult) (mid : List SearchStep) (k : Nat),
+    Inter ctx all r mid → Progress r k →
+    ∃ r' mid', runOpsFrom ctx ops r = .ok r' ∧ Inter ctx all r' mid' ∧ Progress r' (k + ops.length) ∧
+      (r.frontDone = true → r'.frontDone = true) ∧ (r.backDone = true → r'.backDone = true) ∧
+      (mid = [] → mid' = [] ∧ (true ∈ ops → r'.frontDone = true) ∧ (false ∈ ops → r'.backDone = true)) := by
+  intro ops
+  induction ops with
+  | nil =>
+    intro r mid k hi hp
+    exact ⟨r, mid, rfl, hi, by simpa using hp, id, id, fun h => ⟨h, by simp, by simp⟩⟩
+  | cons op ops ih =>
+    intro r mid k hi hp
+    by_cases hfin : r.finished = true
+    · have hflags : r.frontDone = true ∧ r.backDone = true := by
+        simpa [RunResult.finished] using hfin
+      exact ⟨r, mid, by simp [runOpsFrom, hfin], hi, .inl hflags.1, id, id,
+        fun h => ⟨h, fun _ => hflags.1, fun _ => hflags.2⟩⟩
+    · obtain ⟨r1, mid1, hc, hi1, ok⟩ := call_inter hall hi op
+      have hp1 : Progress r1 (k + 1) := by
+        rcases hp with h | h | h
+        · exact .inl (ok.fd_mono h)
+        · exact .inr (.inl (ok.bd_mono h))
+        · rcases ok.progress with h' | h'
+          · cases op with
+            | true => exact .inl h'
+            | false => exact .inr (.inl h')
+          · exact .inr (.inr (by omega))
+      obtain ⟨r', mid', hrun, hi', hp', hfd, hbd, hnil⟩ := ih r1 mid1 (k + 1) hi1 hp1
+      refine ⟨r', mid', by simp [runOpsFrom, hfin, hc, hrun], hi', ?_, fun h => hfd (ok.fd_mono h),
+        fun h => hbd (ok.bd_mono h), ?_⟩
+      · have : k + (op :: ops).length = k + 1 + ops.length := by simp; omega
+        rw [this]; exact hp'
+      · intro hm
+        obtain ⟨hm1, hflag⟩ := ok.nil hm
+        obtain ⟨hm', ht, hf⟩ := hnil hm1
+        refine ⟨hm', ?_, ?_⟩
+        · intro hmem
+          cases op with
+          | true => exact hfd hflag
+          | false => exact ht (by simpa using hmem)
+        · intro hmem
+          cases op with
+          | true => exact hf (by simpa using hmem)
+          | false => exact hbd hflag
+
+theorem Inter.mid_nil_of_progress {all mid : List SearchStep} {r : RunResult} (h : Inter ctx all r mid)
+    (hp : Progress r all.length) : mid = [] := by
+  obtain ⟨h1, h2⟩ := h.sound
+  rcases hp with hp | hp | hp
+  · exact h2 (.inl hp)
+  · exact h2 (.inr hp)
+  · have := congrArg List.length h1
+    simp at this
+    exact List.length_eq_zero_iff.1 (by omega)
+
+theorem Inter.init {all : List SearchStep} {s' : RegexSearcher} (h : Run ctx RegexSearcher.new all s') :
+    Inter ctx all RunResult.init all :=
+  Inter.fwd (s' := s') rfl h rfl rfl rfl (fun h => by cases h)
+
+/-! ## After the end -/
+
+/-- A searcher that has nothing left to hand out. -/
+def Exhausted (ctx : SearchCtx) (s : RegexSearcher) : Prop :=
+  (s.remaining = none ∧ ∃ s', s.forwardStep ctx = .ok (.done, s')) ∨
+  (∃ v, s.remaining = some (v, v.length))
+
+theorem Exhausted.next {s : RegexSearcher} (h : Exhausted ctx s) :
+    ∃ s', s.next ctx = .ok (.done, s') ∧ Exhausted ctx s' := by
+  rcases h with ⟨hrem, s', hd⟩ | ⟨v, hv⟩
+  · refine ⟨s', by rw [next_of_remaining_none hrem, hd], .inl ⟨?_, s', (forwardStep_done_again hd).1⟩⟩
+    rw [forwardStep_remaining hd, hrem]
+  · exact ⟨s, by simp [next_some hv], .inr ⟨v, hv⟩⟩
+
+theorem Exhausted.nextBack {s : RegexSearcher} (h : Exhausted ctx s) :
+    ∃ s', s.nextBack ctx = .ok (.done, s') ∧ Exhausted ctx s' := by
+  rcases h with ⟨hrem, s', hd⟩ | ⟨v, hv⟩
+  · refine ⟨{ s' with remaining := some ([], 0) }, ?_, .inr ⟨[], rfl⟩⟩
+    rw [nextBack_of_run hrem (Run.done hd) (by simp), nextBack_some rfl]
+    simp
+  · exact ⟨s, by simp [nextBack_some hv], .inr ⟨v, hv⟩⟩
+
+theorem Exhausted.callSteps {s : RegexSearcher} (h : Exhausted ctx s) (ops : List Bool) :
+    callSteps ctx ops s = .ok (List.replicate ops.length .done) := by
+  induction ops generalizing s with
+  | nil => rfl
+  | cons op ops ih =>
+    cases op with
+    | true =>
+      obtain ⟨s', h1, h2⟩ := h.next
+      simp [Api.callSteps, h1, ih h2, List.replicate_succ]
+    | false =>
+      obtain ⟨s', h1, h2⟩ := h.nextBack
+      simp [Api.callSteps, h1, ih h2, List.replicate_succ]
+
+theorem Inter.exhausted {all : List SearchStep} {r : RunResult} (h : Inter ctx all r []) :
+    Exhausted ctx r.state := by
+  rcases h with ⟨s', hrem, hrun, _⟩ | ⟨v, pre, f, hm, hrem, hf, _⟩
+  · cases hrun with
+    | done hd => exact .inl ⟨hrem, s', hd⟩
+  · have := List.drop_eq_nil_iff.1 hm.symm
+    have hfe : f = v.length := by omega
+    subst hfe
+    exact .inr ⟨v, hrem⟩
+
+/-! ## Deciding `CtxOK` on concrete contexts -/
+
+theorem ctxOK_of_check (h : ctxOKCheck ctx = true) : CtxOK ctx := by
+  simp only [ctxOKCheck, Bool.and_eq_true, List.all_eq_true, List.mem_range, Bool.or_eq_true,
+    Bool.not_eq_true'] at h
+  obtain ⟨⟨h0, hl⟩, hall⟩ := h
+  have key : ∀ p, p ≤ ctx.len → ctx.isBoundary p = true →
+      (∀ s e, ctx.findFrom p = some (s, e) →
+        p ≤ s ∧ s ≤ e ∧ e ≤ ctx.len ∧ ctx.isBoundary s = true ∧ ctx.isBoundary e = true ∧
+          ctx.findFrom s = some (s, e)) ∧
+      (∀ q, ctx.nextBoundary p = some q → p < q ∧ q ≤ ctx.len ∧ ctx.isBoundary q = true) := by
+    intro p hp hb
+    rcases hall p (by omega) with hn | ⟨h1, h2⟩
+    · rw [hb] at hn; cases hn
+    · constructor
+      · intro s e hf
+        rw [hf] at h1
+        simpa [and_assoc] using h1
+      · intro q hq
+        rw [hq] at h2
+        simpa [and_assoc] using h2
+  exact
+    { find_range := fun p s e hp hb hf => by
+        obtain ⟨a, b, c, _⟩ := (key p hp hb).1 s e hf; exact ⟨a, b, c⟩
+      find_boundary := fun p s e hp hb hf => by
+        obtain ⟨_, _, _, a, b, _⟩ := (key p hp hb).1 s e hf; exact ⟨a, b⟩
+      find_restart := fun p s e hp hb hf => ((key p hp hb).1 s e hf).2.2.2.2.2
+      boundary_zero := h0
+      boundary_len := hl
+      next_boundary := fun e q he hb hq => (key e he hb).2 q hq }
 
 end Regress.C20
